@@ -179,7 +179,34 @@ func (r *scriptedReader) Read(p []byte) (int, error) {
 
 func entropyBlock(t *rapid.T) *big.Int {
 	two256 := new(big.Int).Lsh(bigOne, 256)
-	switch gen.Pick(t, "blockKind", 10) {
+	switch gen.Pick(t, "blockKind", 14) {
+	case 10: // n with several 64-bit words perturbed at once (equal / all-ones / zero / +-1 words next to each other: borrow chains)
+		return gen.PerturbWords(t, ref.N, 64)
+	case 11: // the same at 32-bit granularity
+		return gen.PerturbWords(t, ref.N, 32)
+	case 12: // every limb from {the limb of n, +-1, 0, all ones, random}
+		l := gen.ToLimbs(ref.N)
+		for i := range l {
+			switch gen.Pick(t, "bl", 6) {
+			case 1:
+				l[i]++
+			case 2:
+				l[i]--
+			case 3:
+				l[i] = 0
+			case 4:
+				l[i] = ^uint64(0)
+			case 5:
+				l[i] = gen.U64(t, "blr")
+			}
+		}
+		return gen.FromLimbs(l)
+	case 13: // boundary-biased values (incl. the classes aimed at the constants of the tree under test), possibly + n
+		v := gen.Int(ref.N).Draw(t, "bv")
+		if w := new(big.Int).Add(v, ref.N); rapid.Bool().Draw(t, "plusN") && w.BitLen() <= 256 {
+			return w
+		}
+		return v
 	case 0:
 		return new(big.Int)
 	case 1:
